@@ -10,4 +10,5 @@ PROP = {'level': 'proof',
  'level_note': 'Trusted: Lean kernel; RV.Model.Codec as mirror of attribute.go incl. net.IP.To4/To16, IPMask.Size, CIDRMask, time.Unix as modelled '
                '(validated by correspondence).',
  'trusted': ['models of net.IP.To4/To16, net.IPMask.Size, net.CIDRMask, time.Time.Unix'],
- 'assumptions': ["Go's fixed-width integer arguments are in range by typing (the harness offers only in-range values)"]}
+ 'assumptions': ["Go's fixed-width integer arguments are in range by typing (the harness offers only in-range values)"],
+ 'facts': ['acceptShort', 'acceptInteger', 'acceptInteger64', 'acceptIPAddr', 'acceptIPv6Addr', 'acceptIFID', 'acceptDate', 'acceptVSA', 'encString', 'encBytes', 'encVSA', 'encTLV']}
